@@ -183,6 +183,9 @@ func (k *check) damageMerge(name string, shard int, out cw.DamageOut) {
 	a.randoms += out.Randoms
 	a.specials += out.Specials
 	a.sentinel += out.SentinelsRun
+	if out.SentinelsDrifted > 0 {
+		c.Count("damage_sentinels_on_changed_entry_encoding", out.SentinelsDrifted)
+	}
 	a.miss += out.Miss
 	a.hitEqual += out.HitEqual
 	a.hitDiffInt += out.HitDiffIntegrity
